@@ -165,7 +165,7 @@ class PeerOptions:
     auth_key: Optional[bool] = None
     add_path: Optional[bool] = None
     multipath: Optional[bool] = None
-    multihop: Optional[bool] = None
+    multihop: Optional[int] = None
     multihop_no_nexthop_change: Optional[bool] = None
     af_no_install: Optional[bool] = None
     bfd: Optional[bool] = None
